@@ -118,6 +118,18 @@ example : legacyFanOut toyMd5 (toyMd5 exLegacyHashed ++ "+43".toList)
     = .ok ". 0123456789abcdef0123456789abcdef+3+Kzzz+Rzzzzz-0123456789abcdef0123456789abcdef01234567@5e000000 0:3:f\n".toList := by
   decide
 
+/-- legacy by-UUID delegate: a GET of another cluster's UUID relays that cluster's self-consistent
+record with `+A` → `+R<prefix>-` (hypothesis of C18_legacy_by_uuid_checked); the own cluster's UUID
+and a POST are declined -/
+example : legacyFetchByUUID toyMd5 "aaaaa".toList "zzzzz-4zz18-000000000000001".toList true
+      (some (.reply (.record exGood (toyMd5 exLegacyHashed ++ "+43".toList))))
+    = .ok ". 0123456789abcdef0123456789abcdef+3+Kzzz+Rzzzzz-0123456789abcdef0123456789abcdef01234567@5e000000 0:3:f\n".toList := by
+  decide
+example : legacyFetchByUUID toyMd5 "zzzzz".toList "zzzzz-4zz18-000000000000001".toList true none = .unhandled
+    ∧ legacyFetchByUUID toyMd5 "aaaaa".toList "zzzzz-4zz18-000000000000001".toList false none = .unhandled
+    ∧ legacyFetchByUUID toyMd5 "aaaaa".toList "zzzzz-4zz18-000000000000001".toList true none = .error 404 := by
+  decide
+
 end examples
 
 end ArvVerif.C18
